@@ -15,6 +15,7 @@ func init() {
 			c17Selection(c)
 			parserHelperRules(c, "C10")
 			configReadOnlyRules(c, "C10")
+			nonceRules(c, "C10")
 		},
 	})
 }
